@@ -170,6 +170,10 @@ CONFIGS = {
     'v7-tee': {'arch_version': 7, 'have_thumbee': True},
     'v7-vfp': {'arch_version': 7, 'have_adv_simd_or_vfp': True},
     # implementation-defined vectors at address 0 / an odd place (SCTLR.VE = 1 uses them for IRQ / FIQ; the reset vector when the configuration says so)
+    # reset values given by the configuration file for registers the shipped file leaves at zero (the file format allows any register class): the CPSR
+    # comes out of construction already naming a banked mode, SCR / TTBCR / DACR with bits set
+    'v6-rst': {'reset_values': {'CPSR': '0x000001D3', 'SCR': '0x00000030', 'CPACR': '0x00F00000'}},
+    'v7-rst': {'arch_version': 7, 'memory_system_architecture': 'VMSA', 'reset_values': {'CPSR': '0x000001D2', 'DACR': '0x55555555', 'TTBCR': '0x00000002'}},
     'v6-vec': {'impdef_irq_vector': 0, 'impdef_fiq_vector': 0, 'has_imp_def_reset_vector': True, 'impdef_reset_vector': 0x2000},
 }
 CODE_BASES = [0x8000, 0x8000, 0x8000, 0, 0xFFFF0000, 0xFFFFFF00, 0x7FFFFF80]
